@@ -259,7 +259,13 @@ class ReducedDensityMatrixPropagator(MatrixData, Saveable):
         """
         
         if Nref > 1:
+            # refinement submitted here applies to this call only
+            Nref_saved = self.Nref
             self.setDtRefinement(Nref)
+            try:
+                return self.propagate(rhoi, method=method, mdata=mdata)
+            finally:
+                self.setDtRefinement(Nref_saved)
         
         #
         # Testing if the object submitted is density matrix
